@@ -30,6 +30,7 @@ import progs
 import ir2print as P
 import c11 as H
 
+EXTRA_MODELS = [("scala", "printcorr_scala")]
 OPTS = H.OPTS
 
 
@@ -341,8 +342,16 @@ def run(tier, seed, replay=None):
     for _, _, a, k in sorted(queue, key=lambda q: (q[0], q[1])):
         rep.violation(*a, **k)
     C.clean_cases("c12")
+    # further modelled translators (own model, theorem files and correspondence each)
+    extra_cov = {}
+    for lang_, modname in EXTRA_MODELS:
+        mod = __import__(modname)
+        part = mod.run_part(rep, tier, seed, "C12")
+        proof_ok = C.proof_part_extra(rep, part["proof"]) and proof_ok
+        extra_cov[lang_] = {k: v for k, v in part.items() if k not in ("proof", "obligations", "discharged", "print_assumptions")}
     if not proof_ok and not rep.violations:
         rep.violation("proof", rep.proof_broken, dict(broken=rep.proof_broken), no_input=True)
+    rep.add(further_models=extra_cov)
     rep.add(programs=sum(len(v) for v in per_lang.values()), kotlin_variants=len(kvars), directed_trees=len(fuzz),
             directed_trees_rejected_by_impl=fuzz_crash,
             evaluations=stats["compared"] + fstats["compared"], traces_validated_against_impl=stats["compared"] + fstats["compared"],
